@@ -80,8 +80,10 @@ fn random_garbage(rng: &mut Rng) -> Vec<u8> {
             if g.len() < 6 {
                 continue;
             }
-            let k = g.len() - 2;
-            g[k] ^= 0x5a;
+            // ... or with one damaged byte anywhere (start delimiters, length fields, repeated start
+            // delimiter, addresses, end delimiter)
+            let k = if rng.bool() { g.len() - 2 } else if rng.bool() { rng.usize(g.len().min(4)) } else { rng.usize(g.len()) };
+            g[k] ^= if rng.bool() { 0x5a } else { 1 << rng.usize(8) };
         }
         if matches!(rc::decode(&g), Dec::Reject) {
             return g;
